@@ -171,6 +171,8 @@ def gen_segment_line(rng, lib, ec, sname=None, messy=True):
     n = len(rows)
     k = rng.randint(1, max(1, n) + (3 if (messy and rng.random() < .15) else 0))
     if n == 0:
+        if not messy and not sname.upper().startswith('Z'):
+            return sname        # a segment that defines no fields (QRD from v2.7): the name alone is canonical
         k = rng.randint(1, 5)
     fs = []
     for i in range(k):
@@ -190,7 +192,26 @@ def gen_segment_line(rng, lib, ec, sname=None, messy=True):
     if not messy:
         while fs and fs[-1] == '':
             fs.pop()
+        if not fs:     # a canonical line has at least one value: put one in the first field
+            fs = [gen_ref(rng, rows[0][1], 0, ec, False) if n else 'zval']
+            if not fs[0]:
+                fs = ['v']
     return sname + ec['FIELD'] + ec['FIELD'].join(fs)
+
+
+def nonstandard_escape(text, ec, letters='HNFSTREL'):
+    """True when the text has an escape character outside the sequences esc+letter+esc that hl7apy
+    knows (e.g. the FT formatting commands \\.br\\ or \\X0D\\)."""
+    e = ec['ESCAPE']
+    i = 0
+    while i < len(text):
+        if text[i] == e:
+            if i + 2 < len(text) and text[i + 1] in letters and text[i + 2] == e:
+                i += 3
+                continue
+            return True
+        i += 1
+    return False
 
 
 # ------------------------------------------------------------------------------------------
